@@ -119,19 +119,19 @@ def generate():
     km = ast.parse((REPO / 'homonim' / 'kernel_model.py').read_text())
     # ---------------------------------------------------------------- _get_resampling
     f = find_func(km, 'KernelModel', '_get_resampling')
-    fl = Flow(f)
+    fl = Flow(f, module=km)
     a, b = fl.params[1], fl.params[2]
     rets = [n for n in ast.walk(f) if isinstance(n, ast.Return)]
     pick = None
     if len(rets) == 1 and isinstance(rets[0].value, ast.IfExp):
         t, x, y = rets[0].value.test, U(rets[0].value.body), U(rets[0].value.orelse)
-        pick = (U(t), x, y)
+        pick = (fl.text(t, rets[0]), x, y)
     elif len(rets) == 2:
         ifs = [n for n in f.body if isinstance(n, ast.If)]
         if len(ifs) == 1 and len(ifs[0].body) == 1 and isinstance(ifs[0].body[0], ast.Return):
             other = ifs[0].orelse[0] if ifs[0].orelse else f.body[-1]
             if isinstance(other, ast.Return):
-                pick = (U(ifs[0].test), U(ifs[0].body[0].value), U(other.value))
+                pick = (fl.text(ifs[0].test, ifs[0]), U(ifs[0].body[0].value), U(other.value))
     want_t = f'np.prod(np.abs({a})) <= np.prod(np.abs({b}))'
     if pick is None or pick[0] != want_t or {pick[1], pick[2]} != {'self._downsampling', 'self._upsampling'}:
         raise TranslatorError(f'_get_resampling: {pick}')
@@ -140,11 +140,22 @@ def generate():
     out.append(f'Definition gen_get_resampling (from_area to_area : Q) : resamp := if Qle_bool from_area to_area then {"RDown" if down_first else "RUp"} else {"RUp" if down_first else "RDown"}.')
     # ---------------------------------------------------------------- KernelModel.fit: grid check + dispatch
     f = find_func(km, 'KernelModel', 'fit')
-    fl = Flow(f)
+    fl = Flow(f, module=km)
     sp, rp = fl.params[1], fl.params[2]
     calls = [(U(c), fl.guards(c)) for c in fl.calls(lambda c: U(c.func).startswith('self._fit_'))]
     raw = [c for c in ast.walk(f) if isinstance(c, ast.Call) and U(c.func).startswith('self._fit_')]
     calls = [(fl.text(c, fl.stmt_of(c)), fl.guards(c)) for c in raw]
+    # ... or dispatched through a dict of bound methods: {Model.x: self._fit_x, ...}.get(self._model, default)(source, reference, kernel_shape=..)
+    for r_ in [n for n in ast.walk(f) if isinstance(n, ast.Return) and n.value is not None]:
+        v_ = fl.resolve(r_.value, r_)
+        if isinstance(v_, ast.Call) and isinstance(v_.func, ast.Call) and isinstance(v_.func.func, ast.Attribute) and v_.func.func.attr == 'get' \
+                and isinstance(v_.func.func.value, ast.Dict) and len(v_.func.args) == 2 and U(v_.func.args[0]) == 'self._model':
+            table = {U(k_): U(x_) for k_, x_ in zip(v_.func.func.value.keys, v_.func.func.value.values)}
+            argtxt = U(ast.Call(func=ast.Name(id='F', ctx=ast.Load()), args=v_.args, keywords=v_.keywords))[1:]
+            for model_ in ('gain', 'gain_blk_offset', 'gain_offset'):
+                meth = table.get(f'Model.{model_}', U(v_.func.args[1]))
+                calls.append((meth + argtxt, fl.guards(r_) + [(f'self._model == Model.{model_}', True)] +
+                              [(f'self._model == Model.{o_}', False) for o_ in ('gain', 'gain_blk_offset', 'gain_offset') if o_ != model_]))
 
     def chosen(model):
         hit = []
@@ -174,7 +185,7 @@ def generate():
     out.append(f'Definition gen_fit_grid_check_ok : bool := {"true" if okg else "false"}.    (* raises unless both blocks are on one grid *)')
     # ---------------------------------------------------------------- RefSpaceModel.fit
     f = find_func(km, 'RefSpaceModel', 'fit')
-    fl = Flow(f)
+    fl = Flow(f, module=km)
     sp, rp = fl.params[1], fl.params[2]
     v = fl.resolve(the_return(f).value)
     okr = False
@@ -184,9 +195,13 @@ def generate():
     out.append(f'Definition gen_ref_fit_ok : bool := {"true" if okr else "false"}.     (* base fit of (source re-projected onto the reference grid by the rule source -> reference, reference) *)')
     # ---------------------------------------------------------------- RefSpaceModel.apply
     f = find_func(km, 'RefSpaceModel', 'apply')
-    fl = Flow(f)
+    fl = Flow(f, module=km)
     sp, pp = fl.params[1], fl.params[2]
-    v = fl.resolve(the_return(f).value)
+    rets_ = [n for n in ast.walk(f) if isinstance(n, ast.Return) and n.value is not None]
+    vs = [fl.resolve(r.value, r) for r in rets_]
+    if not vs or len({ast.dump(x) for x in vs}) != 1:
+        raise TranslatorError('RefSpaceModel.apply: the return statements differ')
+    v = vs[0]
     if not (isinstance(v, ast.Call) and U(v.func) == 'KernelModel.apply' and len(v.args) == 3 and U(v.args[0]) == 'self' and U(v.args[1]) == sp):
         raise TranslatorError(f'RefSpaceModel.apply returns {U(v)[:160]}')
     P = v.args[2]
@@ -195,8 +210,12 @@ def generate():
     okp = parts is not None and U(parts[0]) == two and parts[1] == sp and parts[2] == '' and resampling_rule(parts[3], pp, sp)
     out.append(f'Definition gen_ref_apply_params_ok : bool := {"true" if okp else "false"}.   (* gain and offset bands re-projected onto the source grid by the rule parameters -> source *)')
 
+    def is_cover_call(x, mask_txt, par_txt):
+        return isinstance(x, ast.Call) and U(x.func) == 'self._full_coverage_mask' and [U(a_) for a_ in x.args] == [mask_txt, par_txt] and \
+            {k.arg: U(k.value) for k in x.keywords} in ({}, {'kernel_shape': 'self._kernel_shape'})
+
     def cover_ref(x):
-        return U(x) == f'self._full_coverage_mask({sp}.mask_ra, {two})'
+        return is_cover_call(x, f'{sp}.mask_ra', two)
     ptxt = U(P)
     mstores = [(s, val) for (s, tgt, kind, val) in fl.stores() if kind == 'assign' and tgt == f'{ptxt}.mask']
     other = [tgt for (s, tgt, kind, val) in fl.stores() if tgt.startswith(ptxt) and tgt != f'{ptxt}.mask']
@@ -217,9 +236,13 @@ def generate():
     out.append(f'Definition gen_ref_apply_mask (mask_partial : bool) : mask_from := if mask_partial then {mt} else {mf}.')
     # ---------------------------------------------------------------- SrcSpaceModel.fit
     f = find_func(km, 'SrcSpaceModel', 'fit')
-    fl = Flow(f)
+    fl = Flow(f, module=km)
     sp, rp = fl.params[1], fl.params[2]
-    v = fl.resolve(the_return(f).value)
+    rets_ = [n for n in ast.walk(f) if isinstance(n, ast.Return) and n.value is not None]
+    vs = [fl.resolve(r.value, r) for r in rets_]
+    if not vs or len({ast.dump(x) for x in vs}) != 1:
+        raise TranslatorError('SrcSpaceModel.fit: the return statements differ')
+    v = vs[0]
     if not (isinstance(v, ast.Call) and U(v.func) == 'KernelModel.fit' and len(v.args) == 3 and U(v.args[0]) == 'self'):
         raise TranslatorError(f'SrcSpaceModel.fit returns {U(v)[:160]}')
     okc = U(v.args[1]) == f'{sp}.copy()'
@@ -231,7 +254,7 @@ def generate():
     two_s = f'RasterArray.from_profile({rtxt}.array[:2], {rtxt}.profile)'
 
     def cover_src(x):
-        return U(x) == f'self._full_coverage_mask({rp}.mask_ra, {two_s})'
+        return is_cover_call(x, f'{rp}.mask_ra', two_s)
     mstores = [(s, val) for (s, tgt, kind, val) in fl.stores() if kind == 'assign' and tgt == f'{rtxt}.mask']
     other = [tgt for (s, tgt, kind, val) in fl.stores() if tgt.startswith(rtxt) and tgt != f'{rtxt}.mask']
     cls_src = lambda val: mask_kind(val, sp, cover_src)      # noqa: E731
